@@ -482,14 +482,24 @@ package gogen
 //@ readonly
 //@ ensures result == p.current.scope
 
-// matchFuncCall is the 250-line overload/generic matcher: its effect on the builder state is ASSUMED here
-// (it only rewrites argument elements and balances every push it makes); what it returns is constrained elsewhere.
+// matchFuncCall is the 250-line overload/generic matcher. Its frame and result shape are ASSUMED (tensures /
+// trustedframe: it only rewrites argument elements and balances every push it makes); what IS verified here are
+// the overload-candidate loops (C06): candidates are tried in index order, and after every failed attempt the
+// argument elements are restored from the backup before the next candidate is tried.
 //@ func matchFuncCall
-//@ trusted
-//@ requires pkg != nil && fn != nil
+//@ prop C06
+//@ partial
+//@ trustedframe
+//@ requires pkg != nil && fn != nil && forall(i, 0, len(args), args[i] != nil)
 //@ assigns all(internal.Elem.Val), all(internal.Elem.Type), all(internal.Elem.CVal), all(internal.Elem.Src)
-//@ ensures imp(result1 == nil, result0 != nil && fresh(result0))
-//@ ensures (result1 == nil) == (result0 != nil)
+//@ tensures imp(result1 == nil, result0 != nil && fresh(result0))
+//@ tensures (result1 == nil) == (result0 != nil)
+//@ loop 1 invariant ArgsRestored(args, backup) && BackupConsistent(args, backup)
+//@ loop 2 invariant ArgsRestored(args, backup) && BackupConsistent(args, backup)
+//@ loop 3 invariant ArgsRestored(args, backup) && BackupConsistent(args, backup)
+//@ loop 1 entry rangeslice() == ft.Funcs
+//@ loop 2 entry rangeslice() == ft.Methods
+//@ assertcall chgObject[inloop(1)]: arg_v == o && arg_old == fn
 
 //@ func (*CodeBuilder).CallWithEx
 //@ prop C16 C10
@@ -840,3 +850,41 @@ package gogen
 //@ requires varg.Type.(*types.Basic).Kind() != 25 && targ.Type.(*types.Basic).Kind() != 25
 //@ assigns varg.Val, varg.Type, targ.Val, targ.Type
 //@ ensures result == old(GoComparableBasic(varg.Type.(*types.Basic).Kind(), targ.Type.(*types.Basic).Kind(), varg, targ))
+
+
+// ---------------------------------------------------------------------------
+// C06 — overload families and argument backup/restore
+
+//@ func backupArgs
+//@ prop C06
+//@ readonly
+//@ requires forall(i, 0, len(args), args[i] != nil)
+//@ loop 0 invariant len(backup) == len(args) && fresh(backup) && forall(k, 0, rangeidx + 1, backup[k].typ == args[k].Type && backup[k].val == args[k].Val)
+//@ ensures fresh(result) && ArgsRestored(args, result) && BackupConsistent(args, result)
+
+//@ func restoreArgs
+//@ prop C06
+//@ requires len(backup) >= len(args) && forall(i, 0, len(args), args[i] != nil) && BackupConsistent(args, backup)
+//@ assigns all(internal.Elem.Type), all(internal.Elem.Val)
+//@ loop 0 invariant forall(k, 0, rangeidx + 1, args[k].Type == backup[k].typ && args[k].Val == backup[k].val)
+//@ ensures forall(k, 0, len(args), args[k].Type == backup[k].typ && args[k].Val == backup[k].val)
+
+//@ func toIndex
+//@ prop C06
+//@ pure
+//@ ensures (48 <= c && c <= 57 && result == c - 48) || (97 <= c && c <= 122 && result == c - 87)
+
+// overload family: the item whose name carries suffix index k (at byte offset off) is placed at position k
+//@ func overloadFuncs
+//@ prop C06
+//@ readonly
+//@ requires off >= 0 && forall(i, 0, len(items), items[i] != nil && off < len(items[i].Name()))
+//@ loop 0 invariant len(fns) == len(items) && fresh(fns) && forall(k, 0, rangeidx + 1, 0 <= toIndex(items[k].Name()[off]) && toIndex(items[k].Name()[off]) < len(items) && fns[toIndex(items[k].Name()[off])] == items[k])
+//@ ensures len(result) == len(items) && forall(k, 0, len(items), 0 <= toIndex(items[k].Name()[off]) && toIndex(items[k].Name()[off]) < len(items) && result[toIndex(items[k].Name()[off])] == items[k])
+
+//@ func overloadNameds
+//@ prop C06
+//@ readonly
+//@ requires off >= 0 && forall(i, 0, len(items), items[i] != nil && off < len(items[i].Obj().Name()))
+//@ loop 0 invariant len(nameds) == len(items) && fresh(nameds) && forall(k, 0, rangeidx + 1, 0 <= toIndex(items[k].Obj().Name()[off]) && toIndex(items[k].Obj().Name()[off]) < len(items) && nameds[toIndex(items[k].Obj().Name()[off])] == items[k])
+//@ ensures len(result) == len(items) && forall(k, 0, len(items), 0 <= toIndex(items[k].Obj().Name()[off]) && toIndex(items[k].Obj().Name()[off]) < len(items) && result[toIndex(items[k].Obj().Name()[off])] == items[k])
